@@ -199,8 +199,15 @@ func VerifC08HTTP() {
 		// JSON-RPC call: POST / with a body
 		rpcPath = true
 		verifC08HTTPPath = "/"
-		verifC08HTTPLength = []int{20, 0, -1, 1024, 1025}[verifChoice("http.content-length", 5)]
-		switch verifChoice("body", 3) {
+		cl := verifChoice("http.content-length", 5)
+		verifC08HTTPLength = []int{20, 0, -1, 1024, 1025}[cl]
+		bodyKind := 1
+		if cl == 0 {
+			// the declared length is checked before the body is looked at: the body kinds are
+			// explored with an ordinary length, the other lengths with param-less calls
+			bodyKind = verifChoice("body", 3)
+		}
+		switch bodyKind {
 		case 0:
 			verifC08BodyFails = true
 		case 1:
